@@ -556,6 +556,32 @@ def corpus():
     c.append(Scn(True, False, [('a.svc', 'login')], [], 0, L(*ls), "stale serial that is a prefix of the live one"))
     return c
 
+def mode_family():
+    """deterministic family around the +! / +x bookkeeping: two passwords with every pair of mode prefixes, the first answered by a stamp,
+       a plain OK or not at all before the second arrives, the second likewise, data complete before or after; login alone or with a
+       dronecheck service.  (A hold taken for +! must be released exactly once whatever the order of stamp and -!.)"""
+    out = []
+    for svcs in ([('a.svc', 'login')], [('a.svc', 'login'), ('d.svc', 'dronecheck')]):
+        for m1 in ('+!', '+x', '+x!', '-!'):
+            for m2 in ('-!', '+!', '-x', '+x', '-x!', None):
+                for r1 in ('OK acct:1', 'OK', None):
+                    for r2 in ('OK other:2', 'OK', None):
+                        for early in (False, True):
+                            if m2 is None and r2 is not None: continue
+                            ls = ["5 C 1.2.3.4 1234 10.0.0.1 6667"]
+                            data = ["5 N host.example.org", "5 u ident", "5 n Nick", "5 U user :Real"]
+                            if early: ls += data
+                            ls += ["5 P :%s acct pass" % m1]
+                            if r1: ls += ["-1 X a.svc 5_1 :%s" % r1]
+                            if m2:
+                                ls += ["5 P :%s acct pass2" % m2]
+                                if r2: ls += ["-1 X a.svc 5_1 :%s" % r2]
+                            if not early: ls += data
+                            if len(svcs) > 1: ls += ["-1 X d.svc 5_1 :OK"]
+                            ls += ["5 H", "-1 X a.svc 5_1 :OK late:3", "5 D"]
+                            out.append(Scn(True, False, svcs, [], 0, L(*ls), "mode family %s / %s, first answer %s, second %s, data %s" % (m1, m2, r1, r2, "first" if early else "last")))
+    return out
+
 def fmt_steps(scn, steps):
     out = []
     for i, it in enumerate(scn.items):
@@ -651,10 +677,12 @@ def standard_run(chk, profile, nq, nt, extra=()):
     n = nq if chk.tier == "quick" else nt
     intense = dict(profile, maxcli=1, minlen=8, maxlen=28, w_pass=6, w_missing=1, p_good_reply=0.85, p_departed=0.35, p_xq=1.0, nsv=[1, 2, 2, 3], timeouts=profile.get('timeouts', [0, 0, 3600]))
     reloading = dict(profile, maxcli=2, minlen=8, maxlen=24, p_good_reply=0.85, p_xq=1.0, nsv=[1, 2, 2, 3], p_reload=0.12)
-    scns = corpus() + [gen_scn(chk.rng, (reloading if i % 12 == 5 else profile) if i % 3 else intense, chk.hist) for i in range(n)]
+    fam = mode_family() if profile.get('mode_family', True) else []
+    for _ in fam: chk.hist("scenarios:mode family")
+    scns = corpus() + fam + [gen_scn(chk.rng, (reloading if i % 12 == 5 else profile) if i % 3 else intense, chk.hist) for i in range(n)]
     ms = run_model(drv, scns)
     ds = run_daemons(impl, scns)
-    chk.cov["samples"] = [scns[0].describe().split("\n"), scns[len(corpus()) + 1].describe().split("\n")[:25]]
+    chk.cov["samples"] = [scns[0].describe().split("\n"), scns[len(corpus()) + len(fam) + 1].describe().split("\n")[:25]]
     kernel_corpus(chk, scns[:len(corpus())], ms[:len(corpus())])
     chk.hist("scenarios:corpus", len(corpus())); chk.hist("scenarios:generated", n)
     chk.hist("steps", sum(len(s.items) for s in scns))
